@@ -450,4 +450,6 @@ def run(run: Run):
     _shared(run, 'C11', 12, ['lexer', 'literals'])
     from .common import shared_mechanisms as _shared_f
     _shared_f(run, 'C11', 14, ['formulas'])
+    from .common import shared_mechanisms as _shared_g
+    _shared_g(run, 'C11', 15, ['override-lookup'])
     return INFO
